@@ -41,6 +41,10 @@ type BScript struct {
 	// StaggerUS: producers of a wave are started this many microseconds apart (0: together).  It only makes one
 	// arrival order likely; the oracle never depends on it.
 	StaggerUS int `json:",omitempty"`
+	// Legacy: the deprecated WithBatcher option (items) on top of a requests-sized queue: the one public
+	// configuration in which a request of size zero in the batcher's unit (no items) still has a queue size (one
+	// request) and therefore reaches the batcher
+	Legacy bool `json:",omitempty"`
 }
 
 func (s *BScript) asMS() *MSScript {
@@ -150,6 +154,21 @@ func genBMode(t *rapid.T, onlyMergePath bool) BScript {
 			s.Min = rapid.IntRange(s.Max*3/4, s.Max).Draw(t, "min2")
 		}
 	}
+	if mergePath && s.Sizer == "items" && s.Max > 0 {
+		s.Legacy = rapid.Bool().Draw(t, "legacy")
+	}
+	if mergePath && rapid.IntRange(0, 2).Draw(t, "zerosize") == 0 {
+		// a request of size zero in the configured unit joins the pending batch: no items below a resource and a
+		// scope (items sizer), or nothing at all (either sizer); its callback is owed like any other
+		z := []byte{}
+		if rapid.Bool().Draw(t, "itemless") {
+			z = sig.Encode(sig.Simple(s.Signal, next, 0))
+		}
+		pos := rapid.IntRange(1, len(s.Waves[0])).Draw(t, "zeropos")
+		w := append([][]byte{}, s.Waves[0][:pos]...)
+		w = append(w, z)
+		s.Waves[0] = append(w, s.Waves[0][pos:]...)
+	}
 	if s.FlushMS == 60000 {
 		// nothing but size can flush: make sure the last items do get flushed by
 		// shutdown only when producers are not blocked on them -> with
@@ -257,8 +276,22 @@ func runBInner(s *BScript) (nontrivial bool, f *vt.Finding) {
 	if err := qcfg.Batch.Validate(); err != nil {
 		return false, vt.Failf("harness/config", "generated batch config rejected: %v", err)
 	}
-	exp, err := xh.NewExporter(s.Signal, exportertest.NewNopSettings(xh.Type), push,
-		exporterhelper.WithQueue(qcfg), exporterhelper.WithTimeout(exporterhelper.TimeoutConfig{Timeout: 0}))
+	opts := []exporterhelper.Option{exporterhelper.WithQueue(qcfg), exporterhelper.WithTimeout(exporterhelper.TimeoutConfig{Timeout: 0})}
+	if s.Legacy {
+		bc := *qcfg.Batch
+		qcfg.Batch = nil
+		qcfg.Sizer = xh.SizerType("requests")
+		qcfg.QueueSize = 1 << 30
+		b := exporterhelper.NewDefaultBatcherConfig()
+		b.Enabled = true
+		b.FlushTimeout, b.MinSize, b.MaxSize = bc.FlushTimeout, bc.MinSize, bc.MaxSize
+		if err := b.Validate(); err != nil {
+			return false, vt.Failf("harness/config", "generated batcher config rejected: %v", err)
+		}
+		opts = []exporterhelper.Option{exporterhelper.WithQueue(qcfg), exporterhelper.WithBatcher(b), exporterhelper.WithTimeout(exporterhelper.TimeoutConfig{Timeout: 0})}
+		cB.Class("legacy-batcher")
+	}
+	exp, err := xh.NewExporter(s.Signal, exportertest.NewNopSettings(xh.Type), push, opts...)
 	if err != nil {
 		return false, vt.Failf("harness/new", "NewExporter: %v", err)
 	}
